@@ -265,12 +265,12 @@ pub fn check_c07(prop: &str, tier: &str) -> i32 {
         let wcc = Covercrypt::default();
         let (mut wmsk, _) = wcc.setup().expect("setup");
         wmsk.access_structure.add_anarchy("W".into()).unwrap();
-        for i in 0..64 {
+        for i in 0..130 {
             wmsk.access_structure.add_attribute(QualifiedAttribute::new("W", &format!("w{i}")), if hybrid { EncryptionHint::Hybridized } else { EncryptionHint::Classic }, None).unwrap();
         }
         let wmpk = wcc.update_msk(&mut wmsk).unwrap();
-        let ks: Vec<UserSecretKey> = ["W::w0", "W::w7", "W::w31", "W::w63"].iter().map(|k| wcc.generate_user_secret_key(&mut wmsk, &p(k)).unwrap()).collect();
-        for n in [8usize, 16, 32, 64] {
+        let ks: Vec<UserSecretKey> = ["W::w0", "W::w7", "W::w31", "W::w129"].iter().map(|k| wcc.generate_user_secret_key(&mut wmsk, &p(k)).unwrap()).collect();
+        for n in [8usize, 16, 32, 64, 130] {
             let pol = (0..n).map(|i| format!("W::w{i}")).collect::<Vec<_>>().join(" || ");
             let (sec, e) = wcc.encaps(&wmpk, &p(&pol)).unwrap();
             let idx = seeds.len();
@@ -280,6 +280,15 @@ pub fn check_c07(prop: &str, tier: &str) -> i32 {
             }
             seeds.push(MalleSeed { name: format!("{} encapsulation with {n} targets", if hybrid { "hybridized" } else { "classic" }), bytes: ser(&e), enc: e, secret: sec.to_vec() });
             wide_keys.push((idx, ks.clone()));
+            // over-long encodings of the (possibly two-byte) counts
+            for f in w.fields.iter().filter(|f| f.leb) {
+                for extra in [1usize, 2] {
+                    let mut mb = seeds[idx].bytes[..f.off].to_vec();
+                    wire::leb_enc_padded(f.val, f.len + extra, &mut mb);
+                    mb.extend_from_slice(&seeds[idx].bytes[f.off + f.len..]);
+                    mutants.push(EncMutant { seed: idx, what: format!("{} ({}) re-encoded as an over-long LEB128 of {} bytes", f.kind, f.val, f.len + extra), bytes: mb });
+                }
+            }
             let mut push = |what: &str, m: WEnc| mutants.push(EncMutant { seed: idx, what: what.to_string(), bytes: m.encode() });
             let mut m = w.clone();
             m.items.push(w.items[0].clone());
@@ -444,6 +453,27 @@ pub fn check_c07(prop: &str, tier: &str) -> i32 {
         }
     }
 
+    // serialised headers: the (two-byte) metadata length and the counts of the inner encapsulation
+    // re-encoded as over-long LEB128
+    for md_len in [20usize, 120, 300] {
+        let md = vec![0x33u8; md_len];
+        let (_, hdr) = EncryptedHeader::generate(cc, &b.mpk, &p("A::x"), Some(&md), Some(b"ad")).unwrap();
+        let bytes = ser(&hdr);
+        let Ok(w) = wire::WHeader::decode(&bytes) else { continue };
+        for f in w.fields.iter().filter(|f| f.leb) {
+            for extra in [1usize, 2] {
+                dem_cases += 1;
+                let mut mb = bytes[..f.off].to_vec();
+                wire::leb_enc_padded(f.val, f.len + extra, &mut mb);
+                mb.extend_from_slice(&bytes[f.off + f.len..]);
+                if let Ok(Ok(h2)) = catch_unwind(|| EncryptedHeader::deserialize(&mb)) {
+                    if let Ok(Ok(Some(_))) = catch_unwind(AssertUnwindSafe(|| h2.decrypt(cc, kx, Some(b"ad")))) {
+                        run.report(None, "C07.c", &format!("serialised header ({md_len}-byte metadata) with {} ({}) re-encoded as an over-long LEB128: accepted", f.kind, f.val), json!({"engine": "malle-dem", "what": f.kind}));
+                    }
+                }
+            }
+        }
+    }
     run.set("evaluations", json!(mutants.len() as u64 + dem_cases));
     run.set("distinct_nontrivial", json!(decaps_rejected));
     run.set("rule", json!("5 seed encapsulations (classic 1/2/3 targets, hybridized 1/2 targets) plus 8 wide ones (8/16/32/64 targets of either flavour, structural mutants only: items and traps appended, inserted, dropped, exchanged): every byte x {8 bit flips, 0x00, 0xff} (thorough: all 255 values for encapsulations <= 400 B; quick: 2 flips per byte above 600 B), every truncation, one-byte extension; all 255 values of the first byte of every trap (alternative point encodings); every count / flag field re-encoded as an over-long LEB128; every permutation / drop / duplication of items, ML-KEM ciphertexts, masked seeds and traps, flavour flips, and every swap of tag / traps / items / single components with an independent encapsulation of the same policy; each parsed mutant is decapsulated with 7 keys (authorised through each target, through an older revision, twin, unauthorised). PKE ciphertexts (0/1/16/17-byte plaintexts) and encrypted metadata: every bit, every truncation, swaps, changed authentication data. distinct_nontrivial = mutants that parse and are then refused by every key"));
